@@ -158,9 +158,27 @@ end PdshVerif.Cbuf
 namespace PdshVerif.Cbuf
 
 theorem absR_eq_of_write {dst d' : Cbuf} (hd : Inv dst) (hi' : Inv d') (acc : List UInt8)
-    (h : whole d' = Spec.lastN d'.size (whole dst ++ acc)) :
-    ({ f := abs d', hist := Spec.histAfterWrite (absR dst) acc (abs d') } : Spec.RFifo) = absR d' := by
-  rw [← hist_write hd hi' acc h]; rfl
+    (h : whole d' = Spec.lastN d'.size (whole dst ++ acc)) (phys : Nat)
+    (hw : d'.gotWrap = Spec.wrappedAfterWrite (absR dst) phys (abs d')) :
+    ({ f := abs d', hist := Spec.histAfterWrite (absR dst) acc (abs d'),
+       wrapped := Spec.wrappedAfterWrite (absR dst) phys (abs d') } : Spec.RFifo) = absR d' := by
+  rw [← hist_write hd hi' acc h, ← hw]; rfl
+
+/-- nothing stored: the flag stays -/
+theorem wrapped_zero {dst : Cbuf} (hd : Inv dst) (k : Nat) (hk : k = 0) :
+    dst.gotWrap = Spec.wrappedAfterWrite (absR dst) k (abs dst) := by
+  subst hk
+  unfold Spec.wrappedAfterWrite
+  simp only [absR_wrapped, absR_hist, absR_f, abs_q, abs_size]
+  exact (wrapped_unchanged hd dst.size (Nat.le_refl _)).symm
+
+/-- `cbuf_copier` in the specification's terms -/
+theorem copier_flag {src dst : Cbuf} (hd : Inv dst) (len0 : Nat) (pol : Policy) [Admissible pol]
+    (r : Int × Nat × Cbuf) (hr : copier src dst len0 pol = r) :
+    r.2.2.gotWrap = Spec.wrappedAfterWrite (absR dst) (min r.1.toNat (abs r.2.2).size) (abs r.2.2) := by
+  unfold Spec.wrappedAfterWrite
+  simp only [absR_wrapped, absR_hist, absR_f, abs_q, abs_size, hist_length, contents_length]
+  exact copier_gotWrap' hd len0 pol r hr
 
 theorem copy_refines {src dst : Cbuf} (hd : Inv dst) (len : Int) (pol : Policy := chunkPolicy) [Admissible pol] :
     Spec.copy (absR src) (absR dst) len (copy src dst len pol).2.2.size =
@@ -182,12 +200,13 @@ theorem copy_refines {src dst : Cbuf} (hd : Inv dst) (len : Int) (pol : Policy :
     rw [hbs]
     have hzero : ∀ bs : List UInt8, bs = [] →
         (Spec.write (abs dst) bs dst.size).map (fun x : Int × Nat × Spec.Fifo =>
-          (x.1, x.2.1, ({ f := x.2.2, hist := Spec.histAfterWrite (absR dst) (bs.take x.1.toNat) x.2.2 } : Spec.RFifo))) =
+          (x.1, x.2.1, ({ f := x.2.2, hist := Spec.histAfterWrite (absR dst) (bs.take x.1.toNat) x.2.2,
+                          wrapped := Spec.wrappedAfterWrite (absR dst) (min x.1.toNat x.2.2.size) x.2.2 } : Spec.RFifo))) =
         some ((0 : Int), 0, absR dst) := by
       intro bs hb
       subst hb
       simp only [Spec.write, List.length_nil, if_true, abs_size, Option.map_some, Int.toNat_zero, List.take_zero]
-      rw [absR_eq_of_write hd hd [] (whole_unchanged hd)]
+      rw [absR_eq_of_write hd hd [] (whole_unchanged hd) (min 0 dst.size) (wrapped_zero hd _ (by omega))]
     by_cases h0 : len = 0
     · subst h0
       simp only [if_true]
@@ -198,14 +217,15 @@ theorem copy_refines {src dst : Cbuf} (hd : Inv dst) (len : Int) (pol : Policy :
       by_cases hl : lenFd src len > 0
       · simp only [hl, if_true]
         have hc := copier_refines (src := src) hd (lenFd src len) pol
-        generalize copier src dst (lenFd src len) pol = r at hc
+        have hfl := copier_flag (src := src) hd (lenFd src len) pol _ rfl
+        generalize copier src dst (lenFd src len) pol = r at hc hfl
         obtain ⟨r1, r2, r3⟩ := r
         obtain ⟨c1, c2, c3, c4⟩ := hc
-        simp only at c1 c2 c3 c4 ⊢
+        simp only at c1 c2 c3 c4 hfl ⊢
         refine ⟨?_, c1, ?_⟩
         · rw [c2]
           simp only [Option.map_some]
-          rw [absR_eq_of_write hd c1 _ c3]
+          rw [absR_eq_of_write hd c1 _ c3 _ hfl]
         · rcases c4 with c4 | ⟨c4, c5⟩
           · exact Or.inl c4
           · refine Or.inr ⟨c4, ?_⟩
@@ -259,13 +279,16 @@ theorem move_refines {src dst : Cbuf} (hs : Inv src) (hd : Inv dst) (len : Int)
     have hh := hist_consume hs hi' hsc (by simp [dropper])
     have hq : abs (dropper src n.toNat) = { abs src with q := (contents src).drop n.toNat } := abs_dropper src _ hle
     have : absR (dropper src n.toNat) =
-        { f := { abs src with q := (contents src).drop n.toNat }, hist := hist src ++ (contents src).take n.toNat } := by
+        { f := { abs src with q := (contents src).drop n.toNat }, hist := hist src ++ (contents src).take n.toNat,
+          wrapped := src.gotWrap } := by
       simp only [absR, hh, hq]
       unfold Spec.histAfterConsume
       simp only [absR_hist, absR_f, abs_q, contents_length, List.length_drop]
       have e : src.used - (src.used - n.toNat) = n.toNat := by omega
       rw [e]
+      rfl
     rw [this]
+    rfl
   · simp only [hn, if_false]
     refine ⟨?_, hs, c2⟩
     have : n.toNat = 0 := by omega
